@@ -120,6 +120,19 @@ Theorem C17_converges : forall fmt g src src' dst dst' W H w' h' x y w h,
   Conv fmt src' W H w' h' dst'.
 Proof. exact converges_step. Qed.
 
+(* C17_scaled_copy_cursor_free: the soft cursor is painted into the framebuffer and refreshed in every
+   scaled copy (rfbShowCursor), then restored and refreshed again (rfbHideCursor, whatever client the
+   update was for): each scaled copy is again the box filter of the cursor-free framebuffer *)
+Theorem C17_scaled_copy_cursor_free : forall fmt g src painted dst d1 d2 W H w' h' x y w h,
+  1 <= w' -> 0 <= W -> 1 <= h' -> 0 <= H ->
+  geom_ok g W H w' h' x y w h ->
+  Conv fmt src W H w' h' dst ->
+  (forall s t, ~ (x <= s < x + w /\ y <= t < y + h) -> fb_get painted s t = fb_get src s t) ->
+  update_rect true fmt g painted dst = Some d1 ->
+  update_rect true fmt g src d1 = Some d2 ->
+  Conv fmt src W H w' h' d2.
+Proof. exact scaled_copy_cursor_free. Qed.
+
 (* record of F17b - the block grid before d58ea84 (block of offset i at ScaleX(x1) + i*areaX): the same
    framebuffer gives two different scaled images (3x11 screen, factor 3, row 9 modified) *)
 Theorem C17_old_grid_history_dependent :
